@@ -347,6 +347,11 @@ def gen_sort_spec(rng, max_rows=8):
 	for j in range(rng.choice([0, 1, 2])):
 		names.append(rng.choice(["p", "q", f"p{j}"]) if rng.random() < 0.3 else f"pay{j}")
 		cols.append(V.column(rng, rng.choice(["int", "str", "float"]), n, rng.choice(["none", "low", "high"]), small=True))
+	if n and rng.random() < 0.3:
+		# a payload column whose cells all compare equal without being the same (1 / True, 'x' / a str-subclass 'x', 0 / False): cells stay with their rows
+		fam = rng.choice([[1, True], [0, False], ["x", V.MyStr("x")], [5, V.MyInt(5)], [2, 2, 2]])
+		names.append("same")
+		cols.append([fam[i % len(fam)] if rng.random() < 0.7 else fam[0] for i in range(n)])
 	# a column whose name differs from a key's name only by case / punctuation, placed BEFORE it: a key given by name means the exact name
 	if rng.random() < 0.15 and names:
 		cand = [i for i, r in enumerate(by) if r["mode"] in ("name", "vector")]
@@ -375,6 +380,51 @@ def gen_sort_spec(rng, max_rows=8):
 	return {"stale": rng.random() < 0.25, "prefingerprint": rng.random() < 0.25, "rewrite": rng.random() < 0.35, "table": {"names": names, "cols": cols}, "by": by, "reverse": revs, "reverse_form": form, "na_last": rng.random() < 0.6,
 		"scalar_by": nkeys == 1 and rng.random() < 0.5, "by_container": rng.choice(["list", "tuple"]), "id_first": rng.random() < 0.3}
 
+def run_detached_key(chk, spec):
+	"""a key given as a vector orders the rows by THAT vector's cells - also when the vector once was a column of this table (or is a same-named column of
+	another table / of an earlier sort result) and the table's column of that name holds other values now"""
+	import random
+	rng = random.Random(spec["seed"])
+	n = spec["n"]
+	old = [rng.choice([1, 2, 3, 4]) for _ in range(n)]
+	new = [rng.choice([1, 2, 3, 4]) for _ in range(n)]
+	t = Table({"k": list(old), "pay": [f"p{i}" for i in range(n)], "__id": list(range(100, 100 + n))})
+	how = spec["how"]
+	if how == "replaced-column":
+		h = t["k"]
+		call(setattr, t, "k", list(new))
+	elif how == "other-table":
+		h = Table({"k": list(old)})["k"]
+		call(setattr, t, "k", list(new))
+	elif how == "earlier-sort-result":
+		t = Table({"k": list(new), "pay": [f"p{i}" for i in range(n)], "__id": list(range(100, 100 + n))})
+		h = Table({"k": list(old), "z": list(range(n))}).sort_by("z")["k"]
+	else:
+		h = t["k"]
+		call(t.rename_column, "k", "was_k")
+		t = t >> Vector(list(new), name="k")
+	before = M.snap_table(t)
+	o = call(lambda: t.sort_by(h, reverse=spec["reverse"]))
+	chk.judged("table-sort", ("detached-key", how, spec["reverse"], n))
+	if M.snap_table(t) != before:
+		chk.fail("sort_by does not modify its input", "table-sort/input-modified", f"{spec!r}")
+		return
+	if not o.ok:
+		chk.fail("sort_by sorts every admissible input", f"table-sort/raises/{type(o.exc).__name__}", f"{spec!r} raised {o!r}")
+		return
+	names, cols = J.cells(o.value)
+	ids = cols[names.index("__id")]
+	order = [i - 100 for i in ids]
+	keyseq = [old[i] for i in order]
+	exp = sorted(range(n), key=lambda i: old[i], reverse=spec["reverse"])      # stable in both directions: ties keep input order
+	if spec["reverse"]:
+		exp = [i for kv in sorted(set(old), reverse=True) for i in range(n) if old[i] == kv]
+	if order != exp:
+		chk.fail("rows are ordered by the given key vector's own cells", f"table-sort/out-of-order/detached-key/{how}", f"{spec!r}: key cells {old!r} (the table's column 'k' holds {new!r}): row order {order!r}, expected {exp!r}")
+
+
+RUNNERS["detached_key"] = run_detached_key
+
 
 def directed_sort_specs(rng):
 	out = []
@@ -401,6 +451,10 @@ def run(chk):
 	rng = chk.rng
 	for spec in directed_sort_specs(rng):
 		chk.case("table_sort", spec, "table-sort-directed")
+	for how in ("replaced-column", "other-table", "earlier-sort-result", "renamed-and-restacked"):
+		for reverse in (False, True):
+			for n in (3, 5, 8):
+				chk.case("detached_key", {"how": how, "reverse": reverse, "n": n, "seed": rng.randrange(10**9)}, "detached-key")
 	idx = 0
 	for n in range(0, 6):
 		for keys in itertools.product([None, 1, 2], repeat=n):
